@@ -2832,6 +2832,14 @@ class LazyStackedTensorDict(TensorDictBase):
         stack_dim = len(shape) + self.stack_dim - self.ndimension()
         new_shape_tensordicts = [v for i, v in enumerate(shape) if i != stack_dim]
         tensordicts = [td.expand(new_shape_tensordicts) for td in self.tensordicts]
+        if shape[stack_dim] not in (-1, len(tensordicts)):
+            # the stack dim expands like any other dim: only from size 1
+            if len(tensordicts) != 1:
+                raise RuntimeError(
+                    f"The expanded size ({shape[stack_dim]}) must match the number of stacked "
+                    f"tensordicts ({len(tensordicts)}) at the stack dimension {stack_dim}."
+                )
+            tensordicts = tensordicts * shape[stack_dim]
         if inplace:
             self.tensordicts = tensordicts
             self.stack_dim = stack_dim
